@@ -10,6 +10,7 @@ import (
 	"runtime/debug"
 	"runtime/pprof"
 	"strconv"
+	"strings"
 	"time"
 
 	"verif/internal/cards"
@@ -130,6 +131,28 @@ func main() {
 	}
 	if t := os.Getenv("VERIF_TIER"); t != "" && len(args) < 2 {
 		tier = t
+	}
+	if strings.Contains(id, ",") {
+		// several checks in one process (developer use: mutation runs); exit 1 if any reports a violation
+		worst := 0
+		for _, one := range strings.Split(id, ",") {
+			fn, ok := checks[one]
+			if !ok {
+				fmt.Fprintln(os.Stderr, "unknown check", one)
+				os.Exit(2)
+			}
+			rep := explore.NewReport(one, tier)
+			fn(rep, tier)
+			code := rep.Finish()
+			fmt.Printf("%s %s: states=%d transitions=%d violations=%d exit=%d\n", one, tier, rep.Get("states"), rep.Get("transitions"), rep.ViolationCount(), code)
+			if code > worst {
+				worst = code
+			}
+			if code == 1 && os.Getenv("VERIF_STOP_AT_FIRST") != "" {
+				break
+			}
+		}
+		os.Exit(worst)
 	}
 	fn, ok := checks[id]
 	if !ok {
